@@ -373,7 +373,11 @@ func (g *Gen) Step() {
 		}
 	case "node_restart":
 		if g.FaultP > 0 {
-			g.emit(Intent{T: "node_restart", Pick: g.R.Intn(4)})
+			if g.R.Intn(2) == 0 {
+				g.emit(Intent{T: "node_restart", Pick: g.R.Intn(4), Op: "mid", N: g.R.Intn(12)})
+			} else {
+				g.emit(Intent{T: "node_restart", Pick: g.R.Intn(4)})
+			}
 		}
 	case "confirm_fuzz":
 		muts := []string{"", "", "", "", "unknown", "wrong_token", "wrong_chain", "other_signer", "garbage", "short_sig", "foreign"}
